@@ -155,6 +155,18 @@ def _run_prim(case):
     st3 = s.translated(*[float(v) for v in t])
     flags["translated_3args"] = bool(np.array_equal(st3.in_domain(Pt), _analytic_domain(d2, Pt)))
     flags["original_not_moved"] = bool(np.array_equal(np.asarray(s.center), c))
+    # translations with zero / integer components, both call forms (a zero component is not "no argument")
+    a_, b_, c_ = [float(v) for v in rng.normal(size=3) * desc["scale"]]
+    okz = True
+    for tz in [(a_, 0, 0), (0, b_, 0), (0, 0, c_), (a_, 0.0, c_), (0, 0, 0), (a_, b_, 0), (0.0, b_, c_), (2, 0, -1)]:
+        for form in ("args", "vector"):
+            stz = s.translated(*tz) if form == "args" else s.translated(np.array(tz, dtype=float))
+            dz = dict(desc); dz["c"] = np.asarray(s.center, dtype=float) + np.array(tz, dtype=float)
+            Pz = _queries(dz, rng, 60, 10)
+            if not np.array_equal(stz.in_domain(Pz), _analytic_domain(dz, Pz)):
+                okz = False
+                flags["translated_zero_component@%s" % form] = False
+    flags["translated_zero_component"] = okz
     return {"flags": flags, "n_in": int((exp > 0).sum()), "n_out": int((exp == 0).sum()), "shape": case["shape"], "resid": {}}
 
 
